@@ -33,6 +33,7 @@ type scenario struct {
 	ReadMs    int
 	QMax      int32
 	Listen    string // peer | refuse | blackhole
+	Sequel    int    // > 0: callers 1..Sequel run concurrently and caller c+Sequel is the same goroutine's next call
 	HoldUnreg int    // ms every caller is held in the mux.unreg.begin hook (after it left its select, before the cleanup)
 	Script    script
 }
@@ -274,10 +275,21 @@ func runScenario(seed int64, sc *scenario) ([]tr.Ev, []string) {
 	cur.Store(curBox{st})
 	var wg sync.WaitGroup
 	returned := make([]int32, sc.K+1)
-	for c := 1; c <= sc.K; c++ {
+	first := sc.K
+	if sc.Sequel > 0 {
+		first = sc.Sequel
+	}
+	for c := 1; c <= first; c++ {
 		wg.Add(1)
-		go func(c int) {
+		if sc.Sequel > 0 {
+			wg.Add(1)
+		}
+		var doCall func(c int)
+		doCall = func(c int) {
 			defer wg.Done()
+			if sc.Sequel > 0 && c <= sc.Sequel {
+				defer doCall(c + sc.Sequel)
+			}
 			defer atomic.StoreInt32(&returned[c], 1)
 			payload := make([]byte, 6)
 			payload[0], payload[1] = byte(c>>8), byte(c)
@@ -311,7 +323,8 @@ func runScenario(seed int64, sc *scenario) ([]tr.Ev, []string) {
 				cls = errClass(err)
 			}
 			rec.emit("CallEnd", "c", c, "k", k, "p", pq, "rid", rid, "tag", tag, "ms", ms, "err", cls)
-		}(c)
+		}
+		go doCall(c)
 		if sc.Stagger > 0 {
 			time.Sleep(time.Duration(sc.Stagger) * time.Millisecond)
 		}
